@@ -26,7 +26,7 @@ from tracelib import *
 PROP = "C06"
 LEVEL = "exploration"
 FLAVOUR = "plain"
-TIERS = {"quick": (9000, 170), "thorough": (180000, 3300)}
+TIERS = {"quick": (8000, 170), "thorough": (160000, 3300)}
 RULE_TEXT = ("one run = one generated promela-datamodel chart (<= 10 states, parallel/history/final, internal/targetless/multi-target/eventless transitions, "
              "raise/send/assign/if/log/cancel content, integer conditions) executed by spin -T -n<seed> (emitted model) and by the interpreter in the simulator with "
              "delayed events released in the model's order; compared: events dequeued, exits, entries, log values, configurations, termination (raised and sent events through the order in which they are dequeued); "
